@@ -85,7 +85,7 @@ fn props() -> Vec<Prop> {
         run: c04::run_case,
     }, Prop {
         id: "C05",
-        rule: "grammars: hand-written corpus (a^n b^n, nested/sequenced parentheses, left-recursive expressions, S->SS|a|eps, mutual recursion, unit cycles, nullable chains, hidden left recursion, palindromes), three parametric grammars (expanded by parameter reachability), random grammars over ? * + {m,n} groups and references with unconfusable terminals, 'nullable-web' grammars (many mutually dependent nullable symbols referenced in every index order, short strings); for each the engine is walked over every byte string up to max_len over the grammar alphabet plus a junk byte, and the accepting flag of every reachable prefix and the allowed/refused status of every next byte are compared with the proved Lean spec (cfg q); multi-byte tokens of a synthetic vocabulary are compared the same way at sampled prefixes; distinct non-trivial = distinct grammars walked",
+        rule: "grammars: hand-written corpus (a^n b^n, nested/sequenced parentheses, left-recursive expressions, S->SS|a|eps, mutual recursion, unit cycles, nullable chains, hidden left recursion, palindromes), three parametric grammars (expanded by parameter reachability), random grammars over ? * + {m,n} groups and references with unconfusable terminals, 'nullable-web' grammars (many mutually dependent nullable symbols referenced in every index order, short strings); for each the engine is walked over every byte string up to max_len over the grammar alphabet plus a junk byte, and the accepting flag of every reachable prefix and the allowed/refused status of every next byte are compared with the proved Lean spec (cfg q); multi-byte tokens of a synthetic vocabulary are compared the same way at sampled prefixes; along seeded walks (also on Lark grammars with regex lexemes and %ignore and on JSON schemas: family rows-any) the item set of every Earley row of the real parser is compared with the Lean rows model M4; distinct non-trivial = distinct grammars walked",
         quick_cases: 45,
         thorough_cases: 160,
         gen: c05::gen_case,
